@@ -96,6 +96,25 @@ def F11():
     assert a._sizes == b._sizes == {"a": 1, "b": 4}, (a._sizes, b._sizes)
 
 
+def F12():
+    import ast
+    from dissect.cstruct.tools.stubgen import generate_cstruct_stub
+    for d in ("typedef uint8 arr4[4];", "typedef uint8 *ptr;", "typedef char name_t[16]; struct s { name_t n; };"):
+        cs = cstruct()
+        cs.load(d)
+        ast.parse(generate_cstruct_stub(cs))  # "class uint8[4](Array): ..." on the defective tree
+
+
+def F13():
+    import ast
+    from dissect.cstruct.tools.stubgen import generate_cstruct_stub
+    cs = cstruct()
+    cs.load("enum : uint8 { A, B = 5 };")
+    stub = generate_cstruct_stub(cs)
+    ast.parse(stub)  # "A: Literal[<A: 0>] = ..." on the defective tree
+    assert "A: Literal[0]" in stub and "B: Literal[5]" in stub, stub
+
+
 ALL = {k: v for k, v in globals().items() if k.startswith("F") and callable(v)}
 
 if __name__ == "__main__":
